@@ -8,6 +8,10 @@ def scenario(rng):
     ops = list(api_run.BOOT)
     ops += ["create a", "create b", "post a ok 11 " + hx("NICK alice"), "post a ok 12 " + hx("USER u 0 * :real"),
             "post b ok 21 " + hx("NICK bob"), "post b ok 22 " + hx("USER u 0 * :real"), "post a ok 13 " + hx("JOIN #c"), "post b ok 23 " + hx("JOIN #c")]
+    # a third session that never completes registration (only NICK, only a keepalive, or a line the server refuses
+    # before registration): its marker is replicated state like any other
+    ctext = rng.choice(["NICK carol", "PING x", "PRIVMSG #c :too early", "USER u 0 * :real"])
+    ops += ["create c", "post c ok 31 " + hx(ctext)]
     checks = []    # (index of retry op, expected newentries 0)
     cm = {"a": 13, "b": 23}
     last = {"a": "JOIN #c", "b": "JOIN #c"}
@@ -34,6 +38,8 @@ def scenario(rng):
     # after a snapshot + restart the marker must still be there
     ops += ["snapshot 7200", "restart", "post a ok %d %s" % (cm["a"], hx("PRIVMSG #c :retried after restore")), "post b ok %d %s" % (cm["b"], hx("PRIVMSG #c :retried after restore"))]
     checks += [len(ops) - 2, len(ops) - 1]
+    ops.append("post c ok 31 " + hx(ctext))
+    checks.append(len(ops) - 1)
     if rng.random() < 0.6:
         # the last entry of a session is a message of death (what a crashed apply leaves behind): it moves the
         # marker too, also after it was folded into a snapshot
